@@ -1,6 +1,6 @@
 //go:build verif
 
-// c10 drives the throttling flow checker of the real code in three modes and records request-level traces
+// c10 drives the throttling flow checker of the real code in four modes and records request-level traces
 // (arrival, batch, threshold in force for the request, result, wait) that spec/Throttle_Trace.tla judges against
 // property C10:
 //
@@ -11,6 +11,10 @@
 //	             virtual nanosecond clock; the wait is the Sleep the library asks for.  strategy "direct": constant
 //	             threshold; strategy "mem": MemoryAdaptive rule, the memory usage published through
 //	             system_metric.SetSystemMemoryUsage before each request moves the effective threshold
+//	             An entry {"op": "reload", ...} of the history REPLACES THE RULE UNDER TRAFFIC (flow.LoadRules /
+//	             flow.LoadRulesOfResource with a complete new rule) between two requests
+//	mode "gapi": the gate of mode "gate" around api.Entry on a resource with a Direct + Throttling rule; the schedule
+//	             also says when the rule is replaced (-1), possibly while requests are parked inside the checker
 //	mode "chk":  sequential calls of DoCheck on one checker under the virtual nanosecond clock, every call with its
 //	             own threshold argument (what WarmUp / MemoryAdaptive calculators do to the checker)
 //
@@ -49,6 +53,8 @@ func main() {
 			seq(s, tr, clk)
 		case "chk":
 			chk(s, tr, clk)
+		case "gapi":
+			gapi(s, tr, clk)
 		default:
 			gate(s, tr, clk)
 		}
@@ -158,46 +164,75 @@ func emitRet(tr *hx.Trace, p int, r *base.TokenResult, unit int64) {
 	}
 }
 
-// seq mode: times in nanoseconds relative to the scenario origin (kept below 2^31).
-func seq(s hx.M, tr *hx.Trace, clk *hx.VClock) {
-	trn := hx.Int(s, "tr")
-	res := fmt.Sprintf("c10_%d", trn)
-	intervalMs, maxqMs := hx.Int(s, "interval_ms"), hx.Int(s, "maxq_ms")
-	mem := hx.Str(s, "strategy") == "mem"
-	origin := hx.BaseMs(10000) * 1e6
-	clk.SetNs(origin)
+// seqRule builds the throttling rule a "seq" scenario (or one of its reload entries) describes and the fields of
+// the trace event (new / reload) that announce it to the trace spec.
+func seqRule(res string, mem bool, m hx.M) (*flow.Rule, hx.M) {
+	intervalMs, maxqMs := hx.Int(m, "interval_ms"), hx.Int(m, "maxq_ms")
 	rule := &flow.Rule{Resource: res, ControlBehavior: flow.Throttling, StatIntervalInMs: uint32(intervalMs), MaxQueueingTimeMs: uint32(maxqMs)}
-	newEv := hx.M{"op": "new", "tr": trn, "maxq": maxqMs * 1e6, "tol": 1, "si": intervalMs * 1e6}
-	var thrNum, thrDen int64
+	ev := hx.M{"maxq": maxqMs * 1e6, "si": intervalMs * 1e6}
 	if mem {
 		rule.TokenCalculateStrategy = flow.MemoryAdaptive
-		rule.LowMemUsageThreshold, rule.HighMemUsageThreshold = hx.Int(s, "low"), hx.Int(s, "high")
-		rule.MemLowWaterMarkBytes, rule.MemHighWaterMarkBytes = hx.Int(s, "lwm"), hx.Int(s, "hwm")
-		newEv["rule"] = hx.M{"low": rule.LowMemUsageThreshold, "high": rule.HighMemUsageThreshold,
+		rule.LowMemUsageThreshold, rule.HighMemUsageThreshold = hx.Int(m, "low"), hx.Int(m, "high")
+		rule.MemLowWaterMarkBytes, rule.MemHighWaterMarkBytes = hx.Int(m, "lwm"), hx.Int(m, "hwm")
+		ev["rule"] = hx.M{"low": rule.LowMemUsageThreshold, "high": rule.HighMemUsageThreshold,
 			"lwm": rule.MemLowWaterMarkBytes, "hwm": rule.MemHighWaterMarkBytes}
 	} else {
-		thrNum, thrDen = hx.Int(s, "thr_num"), hx.Int(s, "thr_den")
+		thrNum, thrDen := hx.Int(m, "thr_num"), hx.Int(m, "thr_den")
 		rule.TokenCalculateStrategy = flow.Direct
 		rule.Threshold = float64(thrNum) / float64(thrDen)
+		ev["tn"], ev["td"] = thrNum, thrDen
 	}
-	if _, err := flow.LoadRulesOfResource(res, []*flow.Rule{rule}); err != nil {
-		hx.Fatal("load rule: %v", err)
+	return rule, ev
+}
+
+// loadSeqRule replaces the rule of the resource through one of the two public load paths.
+func loadSeqRule(trn int64, res, via string, rule *flow.Rule) {
+	var err error
+	if via == "all" {
+		_, err = flow.LoadRules([]*flow.Rule{rule})
+	} else {
+		_, err = flow.LoadRulesOfResource(res, []*flow.Rule{rule})
+	}
+	if err != nil {
+		hx.Fatal("scenario %d: load rule: %v", trn, err)
 	}
 	if len(flow.GetRulesOfResource(res)) != 1 {
 		hx.Fatal("scenario %d: rule was not accepted", trn)
 	}
+}
+
+// seq mode: times in nanoseconds relative to the scenario origin (kept below 2^31).  An entry of "reqs" is a request
+// or, with "op": "reload", a replacement of the rule under traffic: the entry carries the complete new rule and the
+// load path ("via": "all" = flow.LoadRules, otherwise flow.LoadRulesOfResource).  The trace carries the rule
+// parameters in its new / reload events only: the trace spec keeps the rule in force as state.
+func seq(s hx.M, tr *hx.Trace, clk *hx.VClock) {
+	trn := hx.Int(s, "tr")
+	res := fmt.Sprintf("c10_%d", trn)
+	mem := hx.Str(s, "strategy") == "mem"
+	origin := hx.BaseMs(10000) * 1e6
+	clk.SetNs(origin)
+	rule, newEv := seqRule(res, mem, s)
+	newEv["op"], newEv["tr"], newEv["tol"] = "new", trn, 1
+	loadSeqRule(trn, res, "res", rule)
 	tr.Emit(newEv)
 	for i, x := range s["reqs"].([]interface{}) {
 		q := x.(map[string]interface{})
 		clk.AdvanceNs(hx.Int(q, "gap"))
 		clk.TakeSleeps()
+		if hx.Str(q, "op") == "reload" {
+			r2, ev := seqRule(res, mem, q)
+			loadSeqRule(trn, res, hx.Str(q, "via"), r2)
+			ev["op"] = "reload"
+			tr.Emit(ev)
+			continue
+		}
 		arr := clk.NowNs() - origin
 		batch := hx.Int(q, "batch")
 		if mem {
 			system_metric.SetSystemMemoryUsage(hx.Int(q, "mem"))
 			tr.Emit(hx.M{"op": "inv", "p": i + 1, "arr": arr, "b": batch, "mem": hx.Int(q, "mem")})
 		} else {
-			tr.Emit(hx.M{"op": "inv", "p": i + 1, "arr": arr, "b": batch, "tn": thrNum, "td": thrDen})
+			tr.Emit(hx.M{"op": "inv", "p": i + 1, "arr": arr, "b": batch})
 		}
 		e, b := api.Entry(res, api.WithBatchCount(uint32(batch)))
 		var w int64
@@ -212,6 +247,114 @@ func seq(s hx.M, tr *hx.Trace, clk *hx.VClock) {
 		}
 	}
 	tr.Emit(hx.M{"op": "end"})
+	_, _ = flow.LoadRulesOfResource(res, nil)
+}
+
+// gapi mode: the gate of mode "gate" around api.Entry - k goroutines enter a resource guarded by a Direct + Throttling
+// flow rule (threshold th = n/d per statistic interval of si ms, queueing limit maxq ms; times in ticks of 1 ms), each
+// with its own batch count; the schedule forces who moves next at the th.* yield points, 0 = clock tick, and -1 = THE
+// RULE IS REPLACED (flow.LoadRulesOfResource / LoadRules with the next entry of "reloads") while requests may be in
+// flight inside the checker.  The wait of a request is the Sleep the flow slot asks the (not advancing) clock for.
+func gapi(s hx.M, tr *hx.Trace, clk *hx.VClock) {
+	const tick = int64(1e6)
+	trn := hx.Int(s, "tr")
+	res := fmt.Sprintf("c10g_%d", trn)
+	var bt []int64
+	for _, x := range s["bt"].([]interface{}) {
+		bt = append(bt, int64(x.(float64)))
+	}
+	var sched []int
+	for _, x := range s["sched"].([]interface{}) {
+		sched = append(sched, int(x.(float64)))
+	}
+	var reloads []hx.M
+	if rl, ok := s["reloads"].([]interface{}); ok {
+		for _, x := range rl {
+			reloads = append(reloads, hx.M(x.(map[string]interface{})))
+		}
+	}
+	mk := func(m hx.M) (*flow.Rule, hx.M) {
+		th := m["th"].([]interface{})
+		n, d := int64(th[0].(float64)), int64(th[1].(float64))
+		return &flow.Rule{Resource: res, TokenCalculateStrategy: flow.Direct, ControlBehavior: flow.Throttling,
+				Threshold: float64(n) / float64(d), StatIntervalInMs: uint32(hx.Int(m, "si")), MaxQueueingTimeMs: uint32(hx.Int(m, "maxq"))},
+			hx.M{"si": hx.Int(m, "si"), "maxq": hx.Int(m, "maxq"), "tn": n, "td": d}
+	}
+	origin := hx.BaseMs(10000) * 1e6 // relative time 0
+	clk.SetNs(origin + 1*tick)
+	clk.NoAdvance = true
+	defer func() { clk.NoAdvance = false }()
+	rule, ev := mk(s)
+	loadSeqRule(trn, res, "res", rule)
+	ev["op"], ev["tr"], ev["tol"] = "new", trn, 0
+	tr.Emit(ev)
+	sc := hx.NewSched()
+	sc.Filter = func(pt string) bool { return strings.HasPrefix(pt, "th.") }
+	var procs []*hx.Proc
+	for i := range bt {
+		i := i
+		procs = append(procs, sc.Spawn(func() {
+			arr := (clk.NowNs() - origin) / tick
+			tr.Emit(hx.M{"op": "inv", "p": i + 1, "arr": arr, "b": bt[i]})
+			clk.TakeSleeps()
+			e, b := api.Entry(res, api.WithBatchCount(uint32(bt[i])))
+			// only one gated goroutine runs at a time and the sleep is requested in the same run segment in which
+			// api.Entry returns: the sleeps recorded since the call are this request's
+			var w int64
+			for _, d := range clk.TakeSleeps() {
+				w += d
+			}
+			if b != nil {
+				tr.Emit(hx.M{"op": "ret", "p": i + 1, "res": "reject", "w": 0})
+				return
+			}
+			if w%tick != 0 {
+				hx.Fatal("scenario %d: wait %d is not a whole number of ticks", trn, w)
+			}
+			tr.Emit(hx.M{"op": "ret", "p": i + 1, "res": "pass", "w": w / tick})
+			e.Exit()
+		}))
+	}
+	steps, nrl := 0, 0
+	step := func(i int) {
+		if procs[i].Done {
+			return
+		}
+		steps++
+		tr.Emit(hx.M{"op": "step", "p": i + 1, "at": procs[i].Point})
+		sc.Step(procs[i])
+	}
+	reload := func() {
+		if nrl >= len(reloads) {
+			return
+		}
+		r2, ev := mk(reloads[nrl])
+		loadSeqRule(trn, res, hx.Str(reloads[nrl], "via"), r2)
+		nrl++
+		ev["op"] = "reload"
+		tr.Emit(ev)
+	}
+	for _, x := range sched {
+		if x == 0 {
+			clk.AdvanceNs(tick)
+			tr.Emit(hx.M{"op": "tick"})
+		} else if x < 0 {
+			reload()
+		} else if x-1 < len(procs) {
+			step(x - 1)
+		}
+	}
+	for !sc.AllDone() {
+		for i := range procs {
+			step(i)
+		}
+		if steps > 20000 {
+			hx.Fatal("scenario %d: callers did not terminate", trn)
+		}
+	}
+	sc.Close()
+	tr.Emit(hx.M{"op": "end"})
+	clk.TakeSleeps()
 	_, _ = flow.LoadRulesOfResource(res, nil)
 }
 
